@@ -360,7 +360,9 @@ Section WildLib.
       Inv s3 Fin (rev (Fin ++ map eb (pP ++ [mkEntry b false]))) /\
       keys (store (db s3)) = keys (store (db s1)) /\ last_sent s3 = Some b /\
       libref (db s3) = libref (db s1) /\ nsd (db s3) (bid b) /\
-      Forall (fun e => elib e = cursor_lib s1) (evU ++ evRN) /\ evU ++ evRN <> [].
+      Forall (fun e => elib e = cursor_lib s1) (evU ++ evRN) /\ evU ++ evRN <> [] /\
+      store (db s3) = mark_all (store (db s1)) (unsent (map seg_of (pP ++ [mkEntry b false]))) /\
+      extra (db s3) = extra (db s1).
   Proof.
     intros HI Hb Hc HP HC HS Hnsd.
     pose proof HI as [Hd Hflast Hh]. pose proof Hd as [Hnd HU Hlid Hextra Hlc Hrt].
@@ -385,7 +387,7 @@ Section WildLib.
     assert (HmRN0 : map eblk (evR ++ evN) = map eb (R ++ [en])).
     { rewrite map_app, HmR, HmN, unsent_map, map_map. cbn [sent seg_of].
       change (fun x : entry => eb x) with eb. rewrite Hun, HR, F1, <- map_app, app_assoc. reflexivity. }
-    split; [|split; [|split; [|split; [|split; [|split; [|split]]]]]]; try assumption.
+    split; [|split; [|split; [|split; [|split; [|split; [|split; [|split; [|split]]]]]]]]; try assumption.
     - (* the consumer *)
       rewrite HS, map_app, app_assoc, rev_app_distr.
       rewrite (apply_all_app _ _ evU _ (rev (Fin ++ map eb C))).
@@ -492,6 +494,34 @@ Section WildLib.
       intros e He. unfold f. apply N.leb_le. apply HB. exact He.
   Qed.
 
+  (* MoveLIB + PurgeBeforeLIB, the forkdb invariant alone: the new LIB id is the old one or a strict descendant *)
+  Lemma dbinv_purge_gen d libr kept :
+    DbInv d -> ri libr <> 0 ->
+    (ri libr = ri (libref d) \/ anc (ri libr) (ri (libref d))) ->
+    (forall p, In p (store d) -> esent p = true -> bnum (eb p) < rn libr - kept -> ~ anc (key p) (ri libr)) ->
+    let d' := purge_before_lib (move_lib d libr) kept in
+    DbInv d' /\ libref d' = libr /\
+    store d' = filter (fun e => rn libr - kept <=? bnum (eb e)) (store d).
+  Proof.
+    intros Hd Hl0 HaL Hpur. pose proof Hd as [Hnd HU Hlid Hextra Hlc Hrt].
+    unfold purge_before_lib, move_lib. cbn [libref store rn extra].
+    set (f := fun e : entry => rn libr - kept <=? bnum (eb e)).
+    split; [|split; reflexivity].
+    constructor; cbn [libref store rn ri extra].
+    - apply nodup_filter_keys. exact Hnd.
+    - intros e He. apply filter_In in He as [He _]. apply HU. exact He.
+    - exact Hl0.
+    - left. reflexivity.
+    - intros e He Hs. cbn [store libref] in *. apply filter_In in He as [He Hfe].
+      destruct (Hlc e He Hs) as [(p & Hp & Hps)|Hlow].
+      + destruct (f p) eqn:Fp.
+        * left. exists p. split; [apply find_filter_keep; assumption | exact Hps].
+        * right. pose proof (find_some _ _ _ Hp) as [Hpin Hpk]. rewrite <- Hpk.
+          apply (Hpur p Hpin Hps). unfold f in Fp. apply N.leb_gt in Fp. exact Fp.
+      + right. intros Ha. apply Hlow. destruct HaL as [<-|HaL]; [exact Ha | eapply anc_trans; eassumption].
+    - intros e He Hp. cbn [store] in He. apply filter_In in He as [He _]. apply Hrt; assumption.
+  Qed.
+
   Lemma lib_half s3 Fin S3 b evs :
     Inv s3 Fin S3 -> last_sent s3 = Some b -> In b U -> bid b <> ri (libref (db s3)) ->
     nsd (db s3) (bid b) ->
@@ -522,7 +552,7 @@ Section WildLib.
     set (irr := b0 :: irr') in *.
     set (stalled := stalled_in_segment (db s3) irr).
     assert (HBnum : forall e, In e B -> rn libr - c_kept cfg <= bnum (eb e)).
-    { intros e He. destruct Hnum as [Eid|Hnum].
+    { intros e He. destruct Hnum as [Eid|[_ Hnum]].
       - rewrite Eid in HcB. rewrite (chain_self_nil _ _ _ HcB) in He. destruct He.
       - destruct (chain_top_stored _ _ _ _ Hq Hqne) as (e' & Fe' & Ine').
         specialize (Hnum e' Fe').
@@ -532,7 +562,7 @@ Section WildLib.
         destruct (chain_split_order _ _ _ _ _ _ Hwf Hc) as [Habove _]. specialize (Habove e He). lia. }
     assert (Hpur : forall pe, In pe (store (db s3)) -> esent pe = true -> bnum (eb pe) < rn libr - c_kept cfg ->
                    ~ anc (key pe) (ri libr)).
-    { intros pe Hpe Hps Hlow Ha. destruct Hnum as [Eid|Hnum].
+    { intros pe Hpe Hps Hlow Ha. destruct Hnum as [Eid|[_ Hnum]].
       - rewrite Eid in Ha. exact (Hnsd pe Hpe Hps Ha).
       - destruct (chain_top_stored _ _ _ _ Hq Hqne) as (e' & Fe' & Ine').
         specialize (Hnum e' Fe'). pose proof (find_some _ _ _ Fe') as [He'in He'k].
@@ -766,7 +796,7 @@ Section WildLib.
       + unfold sent_chain_switch_segments in Hsw. rewrite Heq, N.eqb_refl in Hsw. injection Hsw as <- <- <-.
         rewrite Heq in HcH. pose proof (chain_det _ _ _ _ _ HcH HcP0) as ->.
         destruct (trigger_first s1 Fin S b pP pP [] [] None None HI1 Hb Hc) as
-          (s3 & evU & evRN & Hrun & Happ & HI3 & Hk3 & Hls3 & Hlr3 & Hnsd3 & Hcl3 & Hne3).
+          (s3 & evU & evRN & Hrun & Happ & HI3 & Hk3 & Hls3 & Hlr3 & Hnsd3 & Hcl3 & Hne3 & _ & _).
         * rewrite app_nil_r. reflexivity.
         * exact HsH.
         * rewrite app_nil_r. exact HS.
@@ -777,7 +807,7 @@ Section WildLib.
         { intros f t e0 Hu He0. exact (tail_disjoint' (db s) pP (bparent b) Hdb HcP0 f t e0 Hu He0). }
         rewrite Hsc in Hsw. injection Hsw as <- <- <-.
         destruct (trigger_first s1 Fin S b pP C R Uh j None HI1 Hb Hc HP) as
-          (s3 & evU & evRN & Hrun & Happ & HI3 & Hk3 & Hls3 & Hlr3 & Hnsd3 & Hcl3 & Hne3).
+          (s3 & evU & evRN & Hrun & Happ & HI3 & Hk3 & Hls3 & Hlr3 & Hnsd3 & Hcl3 & Hne3 & _ & _).
         * rewrite HH in HsH. apply Forall_app in HsH. tauto.
         * rewrite HS, HH. reflexivity.
         * exact Hnsd1.
@@ -789,7 +819,7 @@ Section WildLib.
         clear -G. induction pP as [|h t IHt]; cbn [filter]; [reflexivity|].
         rewrite (G h (or_introl eq_refl)). apply IHt. intros x Hx. apply G. right. exact Hx. }
       destruct (trigger_first s1 [] [] b pP [] pP [] None None HI1 Hb Hc eq_refl (Forall_nil _) eq_refl Hnsd1) as
-        (s3 & evU & evRN & Hrun & Happ & HI3 & Hk3 & Hls3 & Hlr3 & Hnsd3 & Hcl3 & Hne3).
+        (s3 & evU & evRN & Hrun & Happ & HI3 & Hk3 & Hls3 & Hlr3 & Hnsd3 & Hcl3 & Hne3 & _ & _).
       cbn [rev] in Hrun. rewrite Hfil in Hrun. fold en in Hrun. rewrite Hrun.
       eapply step_finish; eauto; try congruence.
       intros _. eapply Forall_impl; [|exact Hcl3]. cbn beta. intros e0 ->. rewrite Hcur1. exact Hcur.
